@@ -1,6 +1,7 @@
 package props
 
 import (
+	"github.com/caddyserver/caddy/v2"
 	"bytes"
 	"crypto/tls"
 	"fmt"
@@ -26,6 +27,7 @@ type c03Sample struct {
 	ClientEnd string   `json:"client_end"`
 	Faulty    bool     `json:"fault_config"`
 	TLSUp     bool     `json:"tls_to_upstream"`
+	DialFault string   `json:"dial_fault,omitempty"`
 	Net       simnet.Cfg `json:"net"`
 	UpRecv    []int    `json:"upstream_received"`
 	UpSent    []int    `json:"upstream_sent"`
@@ -121,6 +123,25 @@ func runC03(t *testing.T, e *worlds.Env, tier string) (bool, any) {
 		for _, a := range addrs {
 			dials = append(dials, "tcp/"+a)
 		}
+		// dial fault: the last peer of the group refuses connections for a while; the attempt fails
+		// after the earlier peers were connected, and a retry within try_duration succeeds. Every
+		// connection of every attempt has to be closed.
+		dialFault := npeers > 1 && !tlsUp && tp.Prob(1, 4, "dial-fault")
+		var tryDur time.Duration
+		if dialFault {
+			faulty = true
+			lastAddr := addrs[len(addrs)-1]
+			ups.Ups[lastAddr].SetState(simnet.Refuse)
+			back := time.Duration(tp.Pick("peer-back-ms", 30, 200, 5000)) * time.Millisecond
+			tryDur = 1 * time.Second
+			e.S.Go("peerback", func() {
+				time.Sleep(back)
+				e.S.Park("peerback")
+				ups.Ups[lastAddr].SetState(simnet.Up)
+				e.S.Stat("fault_upstream_state_change", 1)
+			})
+			sample.DialFault = fmt.Sprintf("peer %s refuses connections until %v; try_duration %v", lastAddr, back, tryDur)
+		}
 		rs = &worlds.RecSelector{E: e, Inner: &l4proxy.FirstSelection{}}
 		up0 := &l4proxy.Upstream{Dial: dials}
 		if tlsUp {
@@ -128,7 +149,7 @@ func runC03(t *testing.T, e *worlds.Env, tier string) (bool, any) {
 		}
 		h := &l4proxy.Handler{
 			Upstreams:     l4proxy.UpstreamPool{up0},
-			LoadBalancing: &l4proxy.LoadBalancing{SelectionPolicy: rs},
+			LoadBalancing: &l4proxy.LoadBalancing{SelectionPolicy: rs, TryDuration: caddy.Duration(tryDur), TryInterval: caddy.Duration(20 * time.Millisecond)},
 		}
 		if err := h.Provision(e.Ctx); err != nil {
 			panic(err)
